@@ -143,6 +143,7 @@ fn err_json(e: &Error) -> Value {
         Error::InvalidCountArg { locale, key_path, foreign_key } => {
             json!({"kind": "InvalidCountArg", "locale": &*locale.name, "path": path_json(key_path), "foreign": path_json(foreign_key)})
         }
+        Error::InvalidKey(key) => json!({"kind": "InvalidKey", "key": key}),
         Error::LocaleFileDeser { path, err } => {
             json!({"kind": "LocaleFileDeser", "file": path.file_name().map(|s| s.to_string_lossy().to_string()), "msg": err.to_string()})
         }
